@@ -198,6 +198,7 @@ class PropertyRun:
             inconclusive.append(f'{r.job}: vacuity witness {w} never reached')
     # replay
     violations, known_hits, replayed = [], [], 0
+    known_obligations = 0
     seen_classes = set()
     nrep = 0
     for c in cands:
@@ -215,6 +216,7 @@ class PropertyRun:
       key = (c.obligation, wclass)
       k = match_known(self.prop, c.obligation, wclass)
       if k is not None:
+        known_obligations += 1
         if key not in seen_classes:
           known_hits.append((k, what))
         seen_classes.add(key)
@@ -249,8 +251,9 @@ class PropertyRun:
     level = mod.LEVEL
     if level == 'proof':
       coverage = {
-          'obligations': int(tot.get('obligations', 0)),
+          'obligations': int(tot.get('obligations', 0)) - known_obligations,
           'discharged': int(tot.get('discharged', 0)),
+          'known_finding_obligations': known_obligations,
           'checker_cmd': f'./check {self.prop} --tier {tier}',
           'trusted_base': getattr(mod, 'TRUSTED', []),
           'samples': samples[:6] or [j['job'] for j in per_job[:6]],
